@@ -52,6 +52,19 @@ def units(tier):
     add(["S1", "S1", "r2"], 0, cancel=0, cancel_by=2)
     add(["S1", "S1", "R2"], 0, cancel=0, cancel_by=2, native=True)
     if not quick:
+        # every 3-party combination with at least one sender and one receiver, each party cancelled in turn
+        import itertools as _it
+
+        progs = ["S1", "S2", "s2", "R1", "R2", "r2"]
+        for combo in _it.combinations_with_replacement(progs, 3):
+            if not any(p[0] in "Ss" for p in combo) or not any(p[0] in "Rr" for p in combo):
+                continue
+            for buf in (0, 1):
+                for c in range(3):
+                    if combo[c][0] in "sr":
+                        continue  # *_nowait parties never block: nothing to cancel
+                    for native in (False, True):
+                        add(list(combo), buf, cancel=c, native=native)
         add(["S2", "S2", "R2", "R2"], "sym", cancel=2)
         add(["S2", "S2", "R2", "R2"], 0, cancel=0, native=True)
         add(["S1", "S1", "S1", "R2"], 1, cancel=1)
